@@ -113,9 +113,11 @@ DESC = {
  "S108": ("C12", "top-N skips incoming rows by a per-chunk bound taken once the heap holds `limit` rows (not `offset + limit`)", "ORDER BY ... LIMIT n OFFSET m > 0 over >= 2 input chunks with between n and m+n-1 rows seen at a chunk boundary"),
  "S109": ("C15", "a per-statement fail-fast flag: an operator that produces a chunk after any operator failed returns silently", "an error in a non-root operator after data has reached an ancestor (chunk k >= 1): the ancestor's channel closes like end of input"),
  "S110": ("C09", "DELETE checks a row handler's row-set against the version manager's object pool instead of its own snapshot", "a DELETE pinned before a compaction of its table commits, the lock taken afterwards, while an older snapshot keeps the replaced row-sets alive"),
+ "S111": ("C07", "the delete-vector offset of a batch comes from a cursor that is not advanced when a wholly deleted batch is skipped", "a row-set read in more than one batch with one complete batch deleted and rows surviving behind it"),
  "S52": ("C10", "reverse of repair db497b9: the binder fetches the table by id with unwrap() after resolving its name", "DROP TABLE by another session between the binder's two catalog lookups (multi-thread runtime)"),
 }
 STRENGTHENED = {
+ "S102": "missed by the first C20 (no text cell started with a character another CSV dialect gives a meaning); caught after `#`, backslash, BOM, `=1+1` ... were added to the string pool",
  "S83": "missed by the first C01 (LIMIT directly above a plain scan was almost never generated; C12 caught it); caught after the `bare_scan` shape (LIMIT / ORDER BY above a plain column scan, limits around the real row count, mocked statistics) was added",
  "S91": "missed by the first C10; caught after DDL/DML race gates were added to the current-thread leg",
  "S92": "missed by the first C01 (C02 caught it); caught after the `outer_notnull_test` shape (IS [NOT] NULL over a NOT NULL / PRIMARY KEY column above an outer join) was added",
